@@ -13,4 +13,4 @@ for p in "$@"; do
 done
 git -C /repo checkout -- .
 # rebuild the harness against the clean tree so that later runs start from it
-(cd /verif/harness && cargo build --offline >/dev/null 2>&1)
+(cd /verif/harness && CARGO_TARGET_DIR=/verif/.cache/target cargo build --offline >/dev/null 2>&1)
